@@ -27,8 +27,8 @@ let () =
          | RErr c -> print_endline ("ERR " ^ string_of_int (int_of_nat c))
          | ROk (t, r) -> print_endline ("OK toks=" ^ toks_str t ^ " redirs=" ^ redirs_str r))
     | (("ft" | "fta") as kind) :: fs ->
-        (* fta = the model of the code with the PROPOSED notes/C04-fix-5.patch (attached <file) *)
-        (match (if kind = "ft" then from_tokens else from_tokens_att) (toks_of_fields fs) with
+        (* ft = Command::from_tokens as it is; fta = the function before /repo 543507e (no split of attached <file) *)
+        (match (if kind = "ft" then from_tokens else from_tokens_core) (toks_of_fields fs) with
          | R2Err c -> print_endline ("ERR " ^ string_of_int (int_of_nat c))
          | R2OutOfFuel -> print_endline "OUT-OF-FUEL"
          | R2Panic -> print_endline "PANIC"
